@@ -108,12 +108,16 @@ Definition dispatch (cmd : string) (args : list sexp) : option sexp :=
           | None => Some (SA "reject")
           | Some i' =>
               let B := nth i' sh 0 in
-              match sdo with
-              | None => Some (SL [SA "ok"; enc_list enc_nat (td_remove (td_add sh i') B o)])
-              | Some s =>
-                  let L := {| mbs := remove_nth sh s; nmem := nth s sh 0; sd := s; hidden := false |} in
-                  let L' := lazy_remove (lazy_add L i') B (Z.to_nat o) in
-                  Some (SL [SA "ok"; enc_list enc_nat (lazy_bs L'); enc_nat (sd L')])
+              match norm_out_dim (List.length (td_add sh i')) o with
+              | None => Some (SL [SA "raise"; SA "IndexError"])
+              | Some p =>
+                  match sdo with
+                  | None => Some (SL [SA "ok"; enc_list enc_nat (td_remove (td_add sh i') B (Z.of_nat p))])
+                  | Some s =>
+                      let L := {| mbs := remove_nth sh s; nmem := nth s sh 0; sd := s; hidden := false |} in
+                      let L' := lazy_remove (lazy_add L i') B p in
+                      Some (SL [SA "ok"; enc_list enc_nat (lazy_bs L'); enc_nat (sd L')])
+                  end
               end
           end
       | _, _ => None
